@@ -571,7 +571,7 @@ TRAINER_CONFIGS = (
     ('CBMMTrainer', {}), ('ComplexBinghamTrainer', {}),
     ('CACGMMTrainer', {}), ('GMMTrainer', {}), ('VMFMMTrainer', {}),
 )
-EVENTS = ('A', 'B', 'C', 'A_nc', 'A_fp', 'other')
+EVENTS = ('A', 'B', 'C', 'A_nc', 'A_fp', 'A2', 'other')
 
 
 def _cls(name):
@@ -588,6 +588,11 @@ def event_data(seed, cls_name):
         y, lab = A.clustered_data(seed, (), K, N // K + 1, D, 'c20ev', ev, cls_name, complex_=cplx, noise=0.4)
         out[ev] = dict(y=y, K=K, init=A.soft_affiliation(seed, (), K, y.shape[0], 'c20ev', ev, cls_name),
                        sal=np.linspace(0.5, 1.5, y.shape[0]))
+    # 'A2': another utterance of the same shape as 'A'; both are handed over in ONE buffer that the caller refills
+    # in place (a result remembered per array object or per shape would be stale)
+    y2, _ = A.clustered_data(seed, (), 2, N // 2 + 1, 3, 'c20ev', 'A2', cls_name, complex_=cplx, noise=0.4)
+    out['A2'] = dict(out['A'], y=y2)
+    out['buf'] = np.empty_like(out['A']['y'])
     return out
 
 
@@ -596,6 +601,9 @@ def do_event(tr, cls_name, ev, data):
     single = cls_name in ('ComplexWatsonTrainer', 'ComplexBinghamTrainer')
     e = 'A' if ev in ('A_nc', 'A_fp', 'other') else ev
     dd = data[e]
+    if e in ('A', 'A2'):
+        data['buf'][...] = dd['y']
+        dd = dict(dd, y=data['buf'])
     try:
         if single:
             if ev == 'B':
@@ -709,7 +717,7 @@ def run_history(key):
             return None, (before, others + 1)
         st, res = do_event(tr, cls_name, ev, data)
         want_st, want = ref[ev]
-        Dev = data['A' if ev.startswith('A') else ev]['y'].shape[-1]
+        Dev = data['A' if ev.startswith('A') else ev]['y'].shape[-1]  # ('A2' has the shape of 'A')
         if stateful and dim_before is not None and dim_before != Dev:
             if st != 'rejected':
                 return (f'history {hist}: fit with feature dimension {Dev} accepted on a trainer whose cached '
